@@ -99,8 +99,10 @@ def t1(prog, rep, rule="T1"):
                   f"block)", body.describe())
         if ext:
             a = [body.root(x) for x in ext[0].args]
-            rep.check("block" in a[1] and "rollup_filter" in a[2] and a[0].startswith("clone(self.input")
-                      or a[0] == "self.input" or "input_candidate" in a[0], rule, "candidate=input+block",
+            # the candidate is a clone of the current input that this very call extends in place
+            rep.check("block" in a[1] and "rollup_filter" in a[2] and
+                      (a[0].startswith("clone(self.input") or a[0] in ("self.input", "self.input~mut")
+                       or "input_candidate" in a[0]), rule, "candidate=input+block",
                       f"candidate built as extend({[x[:30] for x in a]})", ext[0].where())
     # Err paths assign nothing: assignments are all behind the true edge (checked above); Err
     # blocks must not be reachable from an assignment
